@@ -2,9 +2,9 @@ SPECIFICATION Spec
 CONSTANTS
   Alphabet = {16}
   MaxLen = 0
-  Addrs = {0, 2, 63, 126, 127}
+  Addrs = {0, 2, 126, 127}
   Saps <- TSaps
-  PduLens = {0, 1, 2, 6, 7, 8, 9, 10, 100, 242, 243, 244, 245, 246}
+  PduLens = {0, 1, 7, 8, 9, 100, 243, 244, 245, 246}
   SubstVals = {0}
   SubstMaxLen = 0
 INVARIANT RoundTrip
